@@ -35,6 +35,7 @@ RULE = ("grammar programs with static shapes and without sparse products / "
         "the forward error bound).  The supported fraction per operation is in"
         " the evidence.  non-trivial = supported outcome with >= 2 operation "
         "nodes; distinct by canonical JSON")
+RULE += "  Round-4 additions: a result returned in a wider floating type than NumPy's must hold only values representable in NumPy's result type (exact rule, no rounding slack); 25 enumerated programs zeros_like/ones_like/astype with a dtype argument different from the operand's, followed by inexact arithmetic in that dtype."
 ASSUMPTIONS = [
     "real numpy stands in for jax.numpy (JAX is not installed)",
     "the reference is NumPy's own evaluation of the program with NumPy's "
